@@ -9,7 +9,10 @@ def run(ctx):
     RG.last_occurrence_rules(ctx, "R16.d")
     RS.reset_before_read(ctx, "R16.b", only_owner="matching::damlev::DamerauLevenshtein")
     RS.matrix_rules(ctx, "R16.b")
-    return info("R16.a: every edit-cost constant reaching the DP recurrence is 0.5 or 1.0 and the only zero cost is "
+    # characters and positions keep their full width inside the distance code (a `char as u16` key makes distinct letters collide)
+    from . import r_panic as RP
+    RP.narrow_arithmetic(ctx, "R16.e", only_prefix=("matching::damlev", "<matching::damlev"))
+    return info("R16.e: no narrowing cast to / arithmetic on 8- or 16-bit integers inside the distance code. R16.a: every edit-cost constant reaching the DP recurrence is 0.5 or 1.0 and the only zero cost is "
                 "assigned under ch1 == ch2; R16.c: per-class costs <= default, doubled-letter cost combined through "
                 "min, substitution through max, fmin/fmax/fmin4 select what their names say; R16.d: the last-occurrence map is overwritten with i1+1 once per outer iteration after the inner loop; R16.b: history "
                 "independence = reset-before-read of costs1/costs2/last_i1 plus the matrix rules (growth => resize+size+"
